@@ -11,7 +11,13 @@ import itertools
 import re
 
 from .. import oracle as O
-from ..programs import PROGRAMS
+from ..fstnav import node_at
+from ..programs import PROGRAMS as _SHARED
+
+PROGRAMS = list(_SHARED) + [  # scopes whose comprehensions iterate over calls / contain lambdas and walruses (search(scope=True))
+    "def f(n):\n    return [a for a in range(n)]\nz = [(lambda: (y := 1)) for a in xs]",
+    "class K:\n    v = {k: w for k, w in d.items() if g(k)}\n    def m(self): return (u for u in self.v)",
+]
 
 ID = 'C17'
 LEVEL = 'model_checking'
@@ -334,6 +340,8 @@ def run_struct(fst, M, pi, res):
         'MRE': M.MRE('^[a-c]$'), 'MCall': M.MCall(), 'tag': M.M(t=M.MName()), 'str': 'a', 'MNOT(MName(a))': M.MNOT(M.MName('a')),
         'MBinOp': M.MBinOp(left=M.MName()), 'Constant': ast.Constant,
     }
+    scope_nodes = [((), None)] + [(sp, sn) for sp, sn in O.iter_nodes(ast.parse(src)) if isinstance(
+        sn, (ast.FunctionDef, ast.AsyncFunctionDef, ast.ClassDef, ast.Lambda, ast.ListComp, ast.SetComp, ast.DictComp, ast.GeneratorExp))]
     for pn, p in pats.items():
         cid = cidp + f'search/{pn}'
         res.evals += 1
@@ -351,6 +359,25 @@ def run_struct(fst, M, pi, res):
                      f'src={src!r} pattern={pn}\nsearch={got!r}\nfilter(walk(True))={want!r}\nfilter(walk())={want_f!r}', {'pat': pn}, rep)
         elif got:
             res.nontriv(pi, 'search', pn)
+        # the same law inside one scope: search(scope=True) from every scope node == filter(match) over walk(True, scope=True)
+        for sp, sn in scope_nodes:
+            scid = cidp + f'search-scope/{O.path_str(sp) or "<root>"}/{pn}'
+            res.evals += 1
+            res.transitions += 1
+            try:
+                f = node_at(root, sp)
+                got = [m.matched for m in f.search(p, scope=True)]
+                want = [n for n in f.walk(True, scope=True) if n.match(p)]
+                want_f = [n for n in f.walk(scope=True) if n.match(p)]
+            except Exception as e:  # noqa: BLE001
+                res.fail(scid, 'search-raised:' + e.__class__.__name__, repr(e), {}, rep)
+                continue
+            res.traces += 1
+            if [id(x) for x in got] not in ([id(x) for x in want], [id(x) for x in want_f]):
+                res.fail(scid, 'scope-search-differs-from-filtered-scope-walk',
+                         f'src={src!r} pattern={pn}\nsearch={got!r}\nfilter(walk(True, scope=True))={want!r}', {'pat': pn}, rep)
+            elif got:
+                res.nontriv(pi, 'search-scope', sp, pn)
 
 
 def shards(tier):
